@@ -1011,6 +1011,29 @@ func (in *Interp) binop(x *ssa.BinOp, l, r Val) Val {
 		}
 		return Top{"subtraction too large"}
 	}
+	// division, remainder and multiplication by a constant power of two are shifts / masks
+	if cb, okb := b.Const(); okb && cb != 0 && cb&(cb-1) == 0 {
+		n := 0
+		for (cb>>uint(n))&1 == 0 {
+			n++
+		}
+		nonNeg := !a.Signed || (len(a.Bits) > 0 && a.Bits[len(a.Bits)-1].IsZero())
+		switch {
+		case x.Op == token.QUO && nonNeg:
+			return BVShr(a, n)
+		case x.Op == token.REM && nonNeg:
+			return BVAnd(a, ConstBV(cb-1, a.W(), a.Signed))
+		case x.Op == token.MUL:
+			return BVShl(a, n)
+		}
+	}
+	if ca, oka := a.Const(); oka && ca != 0 && ca&(ca-1) == 0 && x.Op == token.MUL {
+		n := 0
+		for (ca>>uint(n))&1 == 0 {
+			n++
+		}
+		return BVShl(b, n)
+	}
 	// remaining operators need concrete operands
 	ca, oka := a.Int()
 	cb, okb := b.Int()
